@@ -144,6 +144,15 @@ def gen(rng, tier):
     from vlib.core import substitute
     for v in rng.sample([t for t in substitute(dg0, 2) if "\x00" not in t], 40):
         add("cli.sign_raw %s %s default %s" % (mn0, pw0, hx(v)), ("sign_raw", "substituted-digest"), nt=False)
+    from vlib.core import substitute_lookalikes
+    for v in [t for t in substitute_lookalikes(dg0, 2, 3) + substitute_lookalikes(dg0.upper().replace("0X", "0x"), 2, 2) if "\x00" not in t]:
+        add("cli.sign_raw %s %s default %s" % (mn0, pw0, hx(v)), ("sign_raw", "substituted-digest", "digit-lookalike"), nt=False)
+    # the digest in upper-case and mixed-case spellings (valid: the same digest) next to the lower-case one
+    for v in (dg0.upper().replace("0X", "0x"), dg0[:20] + dg0[20:].upper(), dg0[2:].upper(), "0x" + "".join(c.upper() if i % 2 else c for i, c in enumerate(dg0[2:]))):
+        add("cli.sign_raw %s %s default %s" % (mn0, pw0, hx(v)), ("sign_raw", "digest-case"))
+    for v in substitute_lookalikes("7", 0, 2) + substitute_lookalikes("2147483647", 0, 3):
+        if "\x00" not in v:
+            add("cli.address %s %s idx:%s" % (mn0, pw0, hx(v)), ("perturbed-index", "digit-lookalike"), {"via": {"mnemonic": "env", "index": rng.choice(["flag", "env"])}}, nt=False)
     for bad in ["", "0x", "00", "0x" + "00" * 31, "0x" + "00" * 33, "zz" * 32, " " + "00" * 32, "0X" + "00" * 32]:
         mn, pw, sel = rand_acct(rng)
         add("cli.sign_raw %s %s %s %s" % (mn, pw, sel, hx(bad)), ("sign_raw", "bad-digest"), nt=False)
